@@ -850,6 +850,17 @@ func statusOK(cs *Case, status int) bool {
 	return false
 }
 
+// observedKey is observedString for finding keys. Which success code a
+// request was carried out under (200, 201, 204, 207) is no part of what went
+// wrong when it should have been refused: 2xx codes are folded.
+func observedKey(out outcome) string {
+	s := observedString(out)
+	if out.Status >= 200 && out.Status <= 299 {
+		s = "status 2xx" + strings.TrimPrefix(s, fmt.Sprintf("status %d", out.Status))
+	}
+	return s
+}
+
 func observedString(out outcome) string {
 	s := fmt.Sprintf("status %d", out.Status)
 	if len(out.Mutations) > 0 {
@@ -1037,7 +1048,7 @@ func (e *env) run(cs *Case) {
 		// Neither reading of such a request - malformed (4xx owed) or
 		// acceptable (the backend double is healthy, nothing fails) - makes
 		// it the server's error.
-		c.Report(entryPoint(cs)+" | "+cs.Body.Doc+" "+cs.Body.Quest+" | "+observedString(out),
+		c.Report(entryPoint(cs)+" | "+cs.Body.Doc+" "+cs.Body.Quest+" | "+observedKey(out),
 			fmt.Sprintf("%s %s %s: the request breaks a MUST of the RFC (%s); accepting it and refusing it with a 4xx are both left open, but it was answered %s", cs.Target, cs.Method, cs.Path, cs.Body.Quest, observedString(out)),
 			witness{cs, bodyText(cs.Body.Data), rs, out})
 		return
@@ -1146,7 +1157,7 @@ func (e *env) runSeq(cs *Case) {
 				}
 				classes = append(classes, cl)
 			}
-			k := "sequence: " + anomalyKind(a) + " then " + entryPoint(&b) + " | " + strings.Join(classes, " + ") + " | " + observedString(out)
+			k := "sequence: " + anomalyKind(a) + " then " + entryPoint(&b) + " | " + strings.Join(classes, " + ") + " | " + observedKey(out)
 			c.Report(k, fmt.Sprintf("after a request that failed (%s: %s %s %s), %s %s %s, malformed by construction (%s), was answered %s: state left by the failed request leaks into the next one",
 				anomalyKind(a), a.Target, a.Method, a.Path, b.Target, b.Method, b.Path, strings.Join(classes, ", "), observedString(out)), w)
 			return true
@@ -1185,7 +1196,7 @@ func (e *env) report2(cs *Case, rs []reason, out outcome) {
 	for _, r := range rs {
 		classes = append(classes, r.Class)
 	}
-	key := entryPoint(cs) + " | " + strings.Join(classes, " + ") + " | " + observedString(out)
+	key := entryPoint(cs) + " | " + strings.Join(classes, " + ") + " | " + observedKey(out)
 	what := fmt.Sprintf("%s %s %s: request is malformed by construction (%s) but was answered %s", cs.Target, cs.Method, cs.Path, strings.Join(classes, ", "), observedString(out))
 	e.c.Report(key, what, witness{cs, bodyText(cs.Body.Data), rs, out})
 }
